@@ -53,7 +53,7 @@ macro_rules! each_codec_type {
 			Box<u32>, Rc<u64>, Arc<i16>, Box<()>, Box<Box<u32>>, Box<[u8; 1000]>, Box<[u16; 3]>, Rc<String>, Arc<Vec<u32>>,
 			Cow<'static, u32>, Box<Option<Box<u8>>>, Rc<(u8, Vec<u8>)>,
 			BTreeSet<u8>, BTreeSet<u32>, BTreeSet<String>, BTreeSet<Vec<u8>>, BTreeSet<i16>, BTreeSet<(u8, i8)>,
-			BTreeMap<u8, u16>, BTreeMap<u32, String>, BTreeMap<String, Vec<u8>>, BTreeMap<i8, ()>, BTreeMap<u16, BTreeSet<u8>>,
+			BTreeMap<u8, u16>, BTreeMap<u8, [u64; 64]>, BTreeMap<u32, String>, BTreeMap<String, Vec<u8>>, BTreeMap<i8, ()>, BTreeMap<u16, BTreeSet<u8>>,
 			BinaryHeap<u8>, BinaryHeap<u32>, BinaryHeap<i16>, BinaryHeap<String>,
 			LinkedList<u8>, LinkedList<u32>, LinkedList<String>, LinkedList<()>, LinkedList<Option<u16>>,
 			Vec<Vec<Vec<Vec<u8>>>>, Vec<Option<Box<String>>>, BTreeMap<u8, Vec<BTreeSet<u16>>>,
@@ -95,7 +95,7 @@ macro_rules! each_feature_type {
 		each_codec_type!(@list $f, $args;
 			SNamed, STuple, SUnit, SCompact, SSkip, SSingleCompact, SSingle, SEncodedAs, SGeneric<u16>, SGeneric<String>,
 			STransp, Box<STransp>, [STransp; 3], Box<STranspBig>, Vec<STransp>, CA, Compact<CA>, SHasCompact,
-			EPlain, EDisc, EIdx, ESkip, EBoth, STranspCM, Box<STranspCM>, [STranspCM; 3], Box<STranspEA>, [STranspEA; 2], EV1, Box<EV1>, Rc<EV1>, (Box<EV1>, u8), Vec<Box<EV1>>, [Box<EV1>; 2], STranspZ, Box<STranspZ>, [STranspZ; 3], Rc<STranspZ>, (Box<STranspZ>, u16), STranspC, Box<STranspC>, [STranspC; 3], Rc<STranspC>, (u8, Box<STransp>), Vec<EPlain>, Option<EIdx>, [ESkip; 2], Box<EPlain>,
+			EPlain, EDisc, EIdx, ESkip, EBoth, SZ, Vec<SZ>, (Vec<SZ>, u8), STranspCM, Box<STranspCM>, [STranspCM; 3], Box<STranspEA>, [STranspEA; 2], EV1, Box<EV1>, Rc<EV1>, (Box<EV1>, u8), Vec<Box<EV1>>, [Box<EV1>; 2], STranspZ, Box<STranspZ>, [STranspZ; 3], Rc<STranspZ>, (Box<STranspZ>, u16), STranspC, Box<STranspC>, [STranspC; 3], Rc<STranspC>, (u8, Box<STransp>), Vec<EPlain>, Option<EIdx>, [ESkip; 2], Box<EPlain>,
 			SMelGeneric<u32>, SMelCA, EMelCompact, RV, RB, Tree, RM, RL, Vec<SNamed>, Vec<SUnit>, BTreeMap<u8, EPlain>, Vec<SCompact>
 		);
 		#[cfg(feature = "bit-vec")]
@@ -286,7 +286,7 @@ fn main() {
 					}
 				}
 			},
-			"C09" => { each_codec_type!(heap_one, (&mut ctx)); #[cfg(feature = "derive")] heap_one::<Vec<types::SZ>>(&mut ctx); },
+			"C09" => { each_codec_type!(heap_one, (&mut ctx)); },
 			"C10" => { faults::drive(&mut ctx); },
 			"C07" => {
 				each_codec_type!(entries_one, (&mut ctx));
